@@ -10,14 +10,15 @@ from ..core.explorer import explore, run_once
 PROPERTY = "C19"
 LEVEL = "model_checking"
 RULE = ("all request sequences of depth D (quick 7, thorough 10) x all predict-hook answers (accept/decline, a free choice at every "
-        "consultation) x train_step in {-1,1,2,3} x initially trained or not x hook present or absent x {SurrogateModelScikit, "
+        "consultation) x train_step in {-1,1,2,3} and five schedules in which the user changes train_step after j requests x initially trained or not x hook present or absent x {SurrogateModelScikit, "
         "SurrogateModelSMT with stub regressors; SurrogateModelEval}. After every request the implementation state (trained, "
         "eval_counter, predict_counter, training set, fit calls, returned object) is compared with the reference automaton. "
         "states = distinct canonical implementation states reached; transitions = distinct (state, answer) steps; "
         "distinct_nontrivial = distinct (configuration, answer sequence) executions that contain a prediction or a training.")
 ASSUMPTIONS = ["the regressor is a stub honouring fit/score/predict (scikit) resp. set_training_values/train/options (SMT); "
                "the real regressors' numerical behaviour is not part of the property",
-               "requests carry distinct vectors so the order of the training set is observable"]
+               "request vectors repeat with period 3, so both the order of the training set and the handling of repeated designs are observable",
+               "retraining is due at a true evaluation whose running count is a multiple of the train_step in force at that moment"]
 
 
 class StubScikit:
@@ -89,7 +90,14 @@ def make(wrapper, step, trained0, hook):
 
 
 def body_factory(wrapper, step, trained0, hook, depth, col):
+    """step: an int, or ("switch", j, s1, s2): train_step is s1 for the first j requests and is then set to s2 by the user
+    (as artap's own surrogate example does after its DoE phase)."""
+    schedule = step if isinstance(step, tuple) else None
+    if schedule is not None:
+        step = schedule[2]
+
     def body(ctx):
+        step = schedule[2] if schedule is not None else body.step
         from artap.individual import Individual
         problem, s, stub, st = make(wrapper, step, trained0, hook)
         st["ctx"] = ctx
@@ -99,7 +107,12 @@ def body_factory(wrapper, step, trained0, hook, depth, col):
         trace = []
         interesting = False
         for k in range(depth):
-            x = [0.125 * (k + 1)]
+            if schedule is not None and k == schedule[1]:
+                step = schedule[3]
+                s.train_step = step
+            # vectors repeat with period 3 (the same design requested again), so a training set that drops or merges
+            # repeated points is observable
+            x = [0.125 * ((k % 3) + 1)]
             ind = Individual(list(x))
             n_calls = len(problem.h_log)
             n_ret = len(st["returned"])
@@ -166,8 +179,9 @@ def body_factory(wrapper, step, trained0, hook, depth, col):
                 break
         ctx.digest = (tuple(trace), s.eval_counter, s.predict_counter)
         if interesting:
-            col.nontrivial((wrapper, step, trained0, hook, tuple(ctx.choices)))
+            col.nontrivial((wrapper, schedule or step, trained0, hook, tuple(ctx.choices)))
         return out
+    body.step = step
     return body
 
 
@@ -182,7 +196,10 @@ def _shard(shard, col: Collector):
 
 def replay(sub, case):
     col = Collector()
-    body = body_factory(case["wrapper"], case["step"], case["trained0"], case["hook"], case["depth"], col)
+    step = case["step"]
+    if isinstance(step, list):
+        step = tuple(step)
+    body = body_factory(case["wrapper"], step, case["trained0"], case["hook"], case["depth"], col)
     ctx, out = run_once(body, case["choices"])
     return out
 
@@ -196,6 +213,9 @@ def run(tier, seed):
             for trained0 in (False, True):
                 for hook in (False, True):
                     shards.append((wrapper, step, trained0, hook, depth))
+        for sched in (("switch", 3, -1, 2), ("switch", 5, -1, 4), ("switch", 4, 3, 2), ("switch", 2, 2, 3), ("switch", 3, 2, -1)):
+            for hook in (False, True):
+                shards.append((wrapper, sched, False, hook, depth))
     col = run_shards(_shard, shards)
     states = len(col.sets.get("states", ()))
     trans = len(col.sets.get("transitions", ()))
